@@ -170,7 +170,7 @@ Qed.
 
 Lemma op_checkmultisig_mono e opcode : mono (op_checkmultisig low_s cB e opcode) (op_checkmultisig low_s cA e opcode).
 Proof.
-  intros e1. unfold op_checkmultisig. change (c_sigver cB) with (c_sigver c). change (c_sigver cA) with (c_sigver c).
+  intros e1. unfold op_checkmultisig, multisig_finish. change (c_sigver cB) with (c_sigver c). change (c_sigver cA) with (c_sigver c).
   destruct (c_sigver c =? SV_TAPSCRIPT); [auto|].
   destruct (ssize e <? 1); [auto|].
   destruct (num_at cB e 1 4) as [kraw| |] eqn:En; try discriminate. rewrite (num_at_mono _ _ _ _ En).
